@@ -47,6 +47,10 @@ type Held struct {
 
 const spareByte = 0xA5
 
+// SharedBufs are caller-owned buffers that several goroutines pass windows of at the same time
+// (set by the concurrent harness before the run; never written by the harness during it).
+var SharedBufs [][]byte
+
 // Exec performs one call. d is the device currently installed as the source
 // (nil when the real source is in place). The returned Held carries the
 // caller-owned and returned memory for later re-inspection.
@@ -60,7 +64,9 @@ func Exec(op *plan.Op, d *dev.Dev) (o plan.Outcome, h Held) {
 	switch op.K {
 	case "ent":
 		var ent []byte
-		if !op.Nil {
+		if !op.Nil && op.Shared > 0 && op.Shared <= len(SharedBufs) {
+			ent = SharedBufs[op.Shared-1][:len(op.Ent)/2]
+		} else if !op.Nil {
 			raw, _ := hex.DecodeString(op.Ent)
 			full := make([]byte, len(raw)+op.Cap)
 			copy(full, raw)
